@@ -148,6 +148,7 @@ func (sesh *Session) OpenStream() (*Stream, error) {
 	if sesh.IsClosed() {
 		return nil, ErrBrokenSession
 	}
+	vhook("OpenStream.checked")
 	id := atomic.AddUint32(&sesh.nextStreamID, 1) - 1
 	// Because atomic.AddUint32 returns the value after incrementation
 	if sesh.Singleplex && id > 1 {
@@ -264,6 +265,7 @@ func (sesh *Session) recvDataFromRemote(data []byte) error {
 		sesh.streams[frame.StreamID] = newStream
 		sesh.acceptCh <- newStream
 		sesh.streamsM.Unlock()
+		vhook("recv.registered")
 		// new stream
 		sesh.streamCountIncr()
 		return newStream.recvFrame(frame)
